@@ -305,4 +305,75 @@ theorem mergeWS_spec_le (f : Nat) : ∀ k, k ≤ f → WSpecAt k := by
         rw [← hv, ← hfields nvs hm]
         simp [List.map_map, Function.comp_def]
 
+/-- entry `i` of a well-formed list array is the window `[o_i - o_0, o_{i+1} - o_0)` of its trimmed values -/
+theorem entry_eq_trimmed_window (lg : Bool) (off len : Nat) (nulls : Option Nulls) (offs : List Nat) (child : Arr)
+    (hw : wf (.list lg off len nulls offs child) = true) (i : Nat) (hi : i < len) :
+    sub (logical child) (offs.getD (off + i) 0) (offs.getD (off + i + 1) 0)
+      = sub (logical (trimmedValues (.list lg off len nulls offs child)))
+          ((rebasedOffs offs off len).getD i 0) ((rebasedOffs offs off len).getD (i + 1) 0) := by
+  obtain ⟨hm, hl, hwc, _⟩ := wf_list_parts _ _ _ _ _ _ hw
+  rw [logical_trimmedValues _ _ _ _ _ _ hw, getD_rebasedOffs _ _ _ _ (by omega), getD_rebasedOffs _ _ _ _ (by omega)]
+  simp only [← Nat.add_assoc]
+  have h0 := mono_le offs off len hm 0 i (by omega) (by omega)
+  have h1 := (monoOffs_iff _ _ _).1 hm i hi
+  have h2 := mono_le offs off len hm (i + 1) len (by omega) (by omega)
+  simp only [Nat.add_zero] at h0
+  have e1 : off + (i + 1) = off + i + 1 := by omega
+  rw [e1] at h2
+  rw [sub_sub _ _ _ _ _ (by omega) (by simpa using hl)]
+  have e2 : offs.getD off 0 + (offs.getD (off + i) 0 - offs.getD off 0) = offs.getD (off + i) 0 := by omega
+  have e3 : offs.getD off 0 + (offs.getD (off + i + 1) 0 - offs.getD off 0) = offs.getD (off + i + 1) 0 := by omega
+  rw [e2, e3]
+
+/-- the LIST arm of `merge_with_schema` / `merge_list_child_values`: the merged list column has the rows of the inputs, is
+    NULL where both are NULL, and its entry `i` is the window `[a_i, b_i)` of the recursively merged values, where the same
+    window of the trimmed values of the left / right list is entry `i` of the left / right list (the latter for inputs with
+    the same entry lengths, `rebasedOffs` equal). -/
+theorem mergeCell_list_spec (f : Nat) (lg : Bool) (item : Ty)
+    (lg1 : Bool) (off len : Nat) (nulls : Option Nulls) (offs : List Nat) (child : Arr)
+    (lg2 : Bool) (roff rlen : Nat) (rnulls : Option Nulls) (roffs : List Nat) (rchild : Arr) (c : Arr)
+    (hwl : wf (.list lg1 off len nulls offs child) = true) (hwr : wf (.list lg2 roff rlen rnulls roffs rchild) = true)
+    (h : mergeCell (f + 1) (.list lg item) (.list lg1 off len nulls offs child)
+          (.list lg2 roff rlen rnulls roffs rchild) = .ok c) :
+    rlen = len ∧ c.len = len ∧
+    ∃ vals, mergeCell f item (trimmedValues (.list lg1 off len nulls offs child))
+        (trimmedValues (.list lg2 roff rlen rnulls roffs rchild)) = .ok vals ∧
+      ∀ i, i < len →
+        (logical c).getD i .null =
+          (if validAt nulls i || validAt rnulls i then
+            .list (sub (logical vals) ((rebasedOffs offs off len).getD i 0) ((rebasedOffs offs off len).getD (i + 1) 0))
+           else .null)
+        ∧ sub (logical child) (offs.getD (off + i) 0) (offs.getD (off + i + 1) 0)
+            = sub (logical (trimmedValues (.list lg1 off len nulls offs child)))
+                ((rebasedOffs offs off len).getD i 0) ((rebasedOffs offs off len).getD (i + 1) 0)
+        ∧ (rebasedOffs roffs roff rlen = rebasedOffs offs off len →
+            sub (logical rchild) (roffs.getD (roff + i) 0) (roffs.getD (roff + i + 1) 0)
+              = sub (logical (trimmedValues (.list lg2 roff rlen rnulls roffs rchild)))
+                  ((rebasedOffs offs off len).getD i 0) ((rebasedOffs offs off len).getD (i + 1) 0)) := by
+  rw [mergeCell_succ] at h
+  unfold mergeCellBody at h
+  simp only at h
+  split at h
+  all_goals try (cases h; done)
+  split at h
+  · cases h
+  rename_i hlen
+  have hlen : len = rlen := by simpa using hlen
+  subst hlen
+  split at h
+  · cases h
+  rename_i vals hvals
+  split at h
+  all_goals try (cases h; done)
+  cases h
+  refine ⟨rfl, rfl, vals, hvals, ?_⟩
+  intro i hi
+  refine ⟨?_, entry_eq_trimmed_window _ _ _ _ _ _ hwl i hi, ?_⟩
+  · rw [getD_logical _ i (by simpa [Arr.len] using hi)]
+    simp only [listRow, Nat.zero_add, orNulls_spec _ _ _ _ hi]
+  · intro hsame
+    rw [← hsame]
+    exact entry_eq_trimmed_window _ _ _ _ _ _ hwr i hi
+
+
 end LanceModel.C40
